@@ -22,7 +22,9 @@ pub struct NestedLoopJoinExecutor {
 impl NestedLoopJoinExecutor {
     #[try_stream(boxed, ok = DataChunk, error = ExecutorError)]
     pub async fn execute(self, left_child: BoxedExecutor, right_child: BoxedExecutor) {
-        if !matches!(self.op, Expr::Inner | Expr::LeftOuter) {
+        let left_outer = matches!(self.op, Expr::LeftOuter | Expr::FullOuter);
+        let right_outer = matches!(self.op, Expr::RightOuter | Expr::FullOuter);
+        if !matches!(self.op, Expr::Inner) && !left_outer && !right_outer {
             todo!("unsupported join type: {:?}", self.op);
         }
         let left_chunks = left_child.try_collect::<Vec<DataChunk>>().await?;
@@ -34,6 +36,8 @@ impl NestedLoopJoinExecutor {
         let mut filter_builder = BoolArrayBuilder::with_capacity(PROCESSING_WINDOW_SIZE);
 
         let mut right_row_num = 0;
+        // right chunks are kept for the unmatched rows of a right / full outer join
+        let mut right_chunks = vec![];
         // inner join: left x right
         #[for_await]
         for right_chunk in right_child {
@@ -54,6 +58,9 @@ impl NestedLoopJoinExecutor {
                 }
             }
             right_row_num += right_chunk.cardinality();
+            if right_outer {
+                right_chunks.push(right_chunk);
+            }
         }
 
         // take rest of data
@@ -68,7 +75,7 @@ impl NestedLoopJoinExecutor {
         let filter = filter_builder.take();
 
         // append rows for left outer join
-        if matches!(self.op, Expr::LeftOuter) {
+        if left_outer {
             // we need to pick row of left_row which unmatched rows
             let left_row_num = left_rows().count();
             for (mut i, left_row) in left_rows().enumerate() {
@@ -86,6 +93,27 @@ impl NestedLoopJoinExecutor {
                 // if all false, we append row: (left, NULL)
                 let values =
                     (left_row.values()).chain(self.right_types.iter().map(|_| DataValue::Null));
+                if let Some(chunk) = builder.push_row(values) {
+                    yield chunk;
+                }
+                tokio::task::consume_budget().await;
+            }
+        }
+
+        // append rows for right outer join
+        if right_outer {
+            // the results for the j-th right row are `filter[j * left_row_num ..][..left_row_num]`
+            let left_row_num = left_rows().count();
+            let right_rows = right_chunks.iter().flat_map(|chunk| chunk.rows());
+            for (j, right_row) in right_rows.enumerate() {
+                let matched = (j * left_row_num..(j + 1) * left_row_num)
+                    .any(|i| matches!(filter.get(i), Some(true)));
+                if matched {
+                    continue;
+                }
+                // if all false, we append row: (NULL, right)
+                let values =
+                    (self.left_types.iter().map(|_| DataValue::Null)).chain(right_row.values());
                 if let Some(chunk) = builder.push_row(values) {
                     yield chunk;
                 }
